@@ -29,8 +29,8 @@ def _params(o):
 
 def oracle_grid(p):
     cls, x, n1, c = p["cls"], np.asarray(p["x"]), p["n1"], p["c"]
-    o1 = C.make(cls, x, n1, 1.0, False)
-    o2 = C.make(cls, x, n1 * c, 1.0, False)
+    o1 = C.make(cls, x, n1, 1.0, False, p.get("cfg"))
+    o2 = C.make(cls, x, n1 * c, 1.0, False, p.get("cfg"))
     a1, a2 = np.asarray(o1.psd), np.asarray(o2.psd)
     out = []
     sub = a2[::c][: len(a1)]
@@ -108,6 +108,14 @@ def gen(rng, nrng, tier):
     for cls in C.CLASSES:
         for (n1, c) in ([(25, 2), (49, 2), (24, 3)] if tier == "quick" else [(25, 2), (25, 3), (49, 2), (24, 3), (27, 2), (32, 3)]):
             yield ("grid", {"cls": cls, "x": xz, "n1": n1, "c": c})
+    # random and boundary configurations, at their own smallest admissible NFFT and at a larger one
+    for i in range(42 if tier == "quick" else 600):
+        cls = C.CLASSES[i % len(C.CLASSES)]
+        cplx = bool((i // len(C.CLASSES)) % 2)
+        xb = nrng.standard_normal(N) + (1j * nrng.standard_normal(N) if cplx else 0)
+        cfg = C.random_cfg(nrng, cls, N, boundary=(i % 3 == 2))
+        nmin = C.min_nfft(cls, N, cfg)
+        yield ("grid", {"cls": cls, "x": xb, "n1": [nmin, nmin + 1, max(nmin, 33)][i % 3], "c": [2, 3][i % 2], "cfg": cfg})
     # the smallest admissible NFFT of each class against its multiples
     for cplx in (True, False):
         xb = nrng.standard_normal(N) + (1j * nrng.standard_normal(N) if cplx else 0)
